@@ -16,6 +16,7 @@ EXPLANATION = (
     "self.subtree.is_prefix_of(&entry.apath) was true (receiver and argument in that order) and "
     "self.exclude.matches(&entry.apath) was false; (3) PROV - the subtree given to restore / iter_entries reaches "
     "Stitch.subtree unchanged."
+    " Added: is_prefix_of uses no API that strips repeatedly / searches elsewhere / folds case (C12.1c); the subtree filter may be the per-entry test or a per-hunk retain with the same predicate (C12.2); restore_dir creates all missing parents (C12.2c)."
 )
 UNDECIDED = ["that is_prefix_of is exactly 'ancestor-or-self by whole components' for all strings (value-level; after the unit rule the remaining logic is starts_with + separator test)",
              "identity of the restored files under S with those of a full restore (run-time)"]
